@@ -7,6 +7,7 @@ profiles; nothing is bounded.
 -/
 import CamVerif.Model.Cmd
 import CamVerif.Gen.CmdConsts
+import CamVerif.Proofs.C10GenTie
 namespace CamVerif.C10
 open CamVerif CamVerif.Cmd
 
@@ -350,5 +351,10 @@ example : ReadPartition 4 0x1000 10 [⟨0x1000, 4⟩, ⟨0x1004, 4⟩, ⟨0x1008
 
 example : writeChunks .dev 8 [1, 2, 3, 4, 5] 22 =
     .ok [⟨8, [1, 2], 2, 10⟩, ⟨10, [3, 4], 2, 10⟩, ⟨12, [5], 1, 9⟩] := by decide
+
+/-- **gen_fn_tie** (tie by regeneration, function bodies): the Lean functions that `rs2lean`
+re-translates from the CURRENT Rust source on every run (FnCmd) are equal, for every input and both
+build profiles, to the hand-written model functions the theorems above are about. -/
+theorem gen_fn_tie : CamVerif.Proofs.C10GenTie.GenTie := CamVerif.Proofs.C10GenTie.gen_tie
 
 end CamVerif.C10
